@@ -198,9 +198,9 @@ theorem issue1_coh (s : State) (t : Tx) (sc a i ab) (ht : t.d = s.disk) (hp : t.
       | some res => exact h1
       | none => exact h2 _ hr
 
-theorem stepNewAddr_coh (s : State) (sc a i) (h : Coh s.disk s.mem) :
-    Coh (stepNewAddr s sc a i).1.disk (stepNewAddr s sc a i).1.mem :=
-  issue1_coh s (begin s) sc a i none rfl rfl h
+theorem stepNewAddr_coh (s : State) (sc a i cf) (h : Coh s.disk s.mem) :
+    Coh (stepNewAddr s sc a i cf).1.disk (stepNewAddr s sc a i cf).1.mem :=
+  issue1_coh s (begin s) sc a i _ rfl rfl h
 
 theorem stepCurAddr_coh (s : State) (sc a) (h : Coh s.disk s.mem) :
     Coh (stepCurAddr s sc a).1.disk (stepCurAddr s sc a).1.mem := by
@@ -212,22 +212,22 @@ theorem stepCurAddr_coh (s : State) (sc a) (h : Coh s.disk s.mem) :
   | some r =>
     simp only []
     split
-    · exact stepNewAddr_coh { s with mem := (loadAcct s.disk s.mem sc a).2 } sc a false h1
+    · exact stepNewAddr_coh { s with mem := (loadAcct s.disk s.mem sc a).2 } sc a false false h1
     · split
-      · exact stepNewAddr_coh { s with mem := (loadAcct s.disk s.mem sc a).2 } sc a false h1
+      · exact stepNewAddr_coh { s with mem := (loadAcct s.disk s.mem sc a).2 } sc a false false h1
       · exact h1
 
 theorem stepFund_coh (s : State) (sc a) (h : Coh s.disk s.mem) :
     Coh (stepFund s sc a).1.disk (stepFund s sc a).1.mem := by
-  have h1 := stepNewAddr_coh s sc a false h
+  have h1 := stepNewAddr_coh s sc a false false h
   unfold stepFund
   simp only []
   cases (stepNewAddr s sc a false).2 with
   | addr ad => exact lookupAddr_accts_coh _ _ sc ad h1
   | _ => exact h1
 
-theorem stepCreateTx_coh (s : State) (sc a dry huge nf) (h : Coh s.disk s.mem) :
-    Coh (stepCreateTx s sc a dry huge nf).1.disk (stepCreateTx s sc a dry huge nf).1.mem := by
+theorem stepCreateTx_coh (s : State) (sc a dry huge nf cf) (h : Coh s.disk s.mem) :
+    Coh (stepCreateTx s sc a dry huge nf cf).1.disk (stepCreateTx s sc a dry huge nf cf).1.mem := by
   unfold stepCreateTx
   split
   · exact h
@@ -245,7 +245,7 @@ theorem stepCreateTx_coh (s : State) (sc a dry huge nf) (h : Coh s.disk s.mem) :
 theorem stepFundPsbt_coh (s : State) (sc a c) (h : Coh s.disk s.mem) :
     Coh (stepFundPsbt s sc a c).1.disk (stepFundPsbt s sc a c).1.mem := by
   cases c with
-  | none => exact stepCreateTx_coh s sc a false false false h
+  | none => exact stepCreateTx_coh s sc a false false false false h
   | some i =>
     simp only [stepFundPsbt]
     cases s.disk.funded[i]? with
@@ -306,8 +306,8 @@ theorem inval_coh (d : Disk) (m m' : Mem) (sc a) (h : Coh d m) (ha : AgreeOff sc
   · cases hx
   · rename_i hn; rw [ha sc' a' hn] at hx; exact h.cache sc' a' x hx
 
-theorem stepImport_coh (s : State) (dry sc nm key n) (h : Coh s.disk s.mem) :
-    Coh (stepImport s dry sc nm key n).1.disk (stepImport s dry sc nm key n).1.mem := by
+theorem stepImport_coh (s : State) (dry sc nm key n cf) (hcf : (!dry && cf) = false) (h : Coh s.disk s.mem) :
+    Coh (stepImport s dry sc nm key n cf).1.disk (stepImport s dry sc nm key n cf).1.mem := by
   unfold stepImport stepImportWith
   split
   · exact h
@@ -332,7 +332,10 @@ theorem stepImport_coh (s : State) (dry sc nm key n) (h : Coh s.disk s.mem) :
         | some r =>
           simp only []
           split
-          · exact hl
+          · rename_i hd
+            have hc : cf = false := by cases dry <;> simp_all
+            subst hc
+            exact hl
           · have a2 := a1.trans (issue_agree { d := d1, m := (loadAcct d1 s.mem sc (s.disk.last sc + 1)).2, pend := [] }
               sc (s.disk.last sc + 1) false n)
             cases (issue { d := d1, m := (loadAcct d1 s.mem sc (s.disk.last sc + 1)).2, pend := [] }
@@ -356,7 +359,7 @@ theorem stepImport_coh (s : State) (dry sc nm key n) (h : Coh s.disk s.mem) :
 
 
 theorem stepRename_coh (s : State) (sc a nm) (h : Coh s.disk s.mem) :
-    Coh (stepRename s sc a nm).1.disk (stepRename s sc a nm).1.mem := by
+    Coh (stepRename s sc a nm false).1.disk (stepRename s sc a nm false).1.mem := by
   unfold stepRename
   split
   · exact h
@@ -365,7 +368,7 @@ theorem stepRename_coh (s : State) (sc a nm) (h : Coh s.disk s.mem) :
     · cases hrow : s.disk.rows sc a with
       | none => exact h
       | some r =>
-        simp only []
+        simp only [Bool.false_eq_true, if_false]
         apply loadAcct_coh
         have hb : a ≤ s.disk.last sc := h.bound sc a r hrow
         cases hc : s.mem.accts sc a with
@@ -408,16 +411,21 @@ theorem stepUnlock_coh (s : State) (h : Coh s.disk s.mem) :
     · exact foldl_coh s.disk _ (fun m p hm => loadAcct_coh s.disk m p.1 p.2 hm) _ _ h
     · exact h
 
-/-- every request preserves the coherence of the account cache -/
-theorem step_coh (s : State) (op : Op) (h : Coh s.disk s.mem) : Coh (step s op).1.disk (step s op).1.mem := by
+/-- every request preserves the coherence of the account cache - except the two eager mutators (ImportAccount,
+RenameAccount) when the COMMIT of their transaction fails (`Op.eagerCommitFail`) -/
+theorem step_coh (s : State) (op : Op) (hop : op.eagerCommitFail = false) (h : Coh s.disk s.mem) :
+    Coh (step s op).1.disk (step s op).1.mem := by
   cases op with
-  | newAddr sc a i => exact stepNewAddr_coh s sc a i h
+  | newAddr sc a i cf => exact stepNewAddr_coh s sc a i cf h
   | curAddr sc a => exact stepCurAddr_coh s sc a h
   | fund sc a => exact stepFund_coh s sc a h
-  | createTx sc a dry huge nf => exact stepCreateTx_coh s sc a dry huge nf h
+  | createTx sc a dry huge nf cf => exact stepCreateTx_coh s sc a dry huge nf cf h
   | fundPsbt sc a c => exact stepFundPsbt_coh s sc a c h
-  | importAcct dry sc nm key n => exact stepImport_coh s dry sc nm key n h
-  | rename sc a nm => exact stepRename_coh s sc a nm h
+  | importAcct dry sc nm key n cf => exact stepImport_coh s dry sc nm key n cf hop h
+  | rename sc a nm cf =>
+    have : cf = false := hop
+    subst this
+    exact stepRename_coh s sc a nm h
   | newAcct sc nm => exact stepNewAcct_coh s sc nm h
   | lock => exact h
   | unlock => exact stepUnlock_coh s h
@@ -433,10 +441,12 @@ theorem init_coh : Coh init.disk init.mem := by
     · rename_i h0; rw [h0]; exact Nat.le_refl _
     · cases hx
 
-theorem run_coh (s : State) (ops : List Op) (h : Coh s.disk s.mem) : Coh (run s ops).disk (run s ops).mem := by
+theorem run_coh (s : State) (ops : List Op) (hops : ∀ op ∈ ops, op.eagerCommitFail = false) (h : Coh s.disk s.mem) :
+    Coh (run s ops).disk (run s ops).mem := by
   induction ops generalizing s with
   | nil => exact h
-  | cons op rest ih => exact ih _ (step_coh s op h)
+  | cons op rest ih =>
+    exact ih _ (fun o ho => hops o (List.mem_cons_of_mem _ ho)) (step_coh s op (hops op List.mem_cons_self) h)
 
 theorem emptyMem_coh (d : Disk) (m : Mem) (h : Coh d m) : Coh d emptyMem :=
   ⟨fun _ _ _ hx => (by cases hx), h.bound⟩
